@@ -654,8 +654,11 @@ func runCheck(prop, tier string, only, casesOverride, budgetOverride int) int {
 	}
 	os.MkdirAll(evDir, 0o755)
 	eb, _ := json.MarshalIndent(ev, "", " ")
-	if err := os.WriteFile(filepath.Join(evDir, prop+".json"), eb, 0o644); err != nil {
-		fatal2("write evidence: %v", err)
+	if only < 0 && a.stats.Evaluations > 0 {
+		// a single-case debugging run or a run that evaluated nothing is not evidence
+		if err := os.WriteFile(filepath.Join(evDir, prop+".json"), eb, 0o644); err != nil {
+			fatal2("write evidence: %v", err)
+		}
 	}
 	fmt.Printf("verifsim: %d cases, %d simulated runs, %d distinct non-trivial, %d ops, %d steps, sites %d/%d, %.1fs%s\n",
 		a.stats.Evaluations, a.stats.Runs, len(distinct), a.stats.Ops, a.stats.Steps, sitesHit, bi.Sites, wall, map[bool]string{true: " (time budget reached)", false: ""}[a.timedOut])
